@@ -63,14 +63,14 @@ var c44Pool = []string{"/a", "/b", "/c", "/a/x", "/a/y", "/a/x/p", "/a/x/q", "/b
 var c44Risky = map[string]bool{
 	"open dir-for-writing":           true, // memFS opens directories for writing
 	"open root-for-writing":          false,
-	"open append":                    true, // memFS rejects O_APPEND
-	"open sync":                      true, // memFS rejects O_SYNC
-	"read wronly-handle":             true, // memFS reads through an O_WRONLY handle
-	"write rdonly-handle":            true, // memFS writes through an O_RDONLY handle
-	"removeall parent-missing":       true, // memFS fails, os.RemoveAll returns nil
-	"rename nonexistent-onto-itself": true, // memFS returns nil for a name that does not exist
-	"rename root-onto-itself":        true, // memFS returns nil, Dir refuses
-	"write empty-write-past-eof":     true, // memFS extends the file on a zero-length write
+	"open append":                    false, // memFS rejects O_APPEND (repaired; generated in every history)
+	"open sync":                      false, // memFS rejects O_SYNC (repaired; generated in every history)
+	"read wronly-handle":             false, // memFS reads through an O_WRONLY handle (repaired; generated in every history)
+	"write rdonly-handle":            false, // memFS writes through an O_RDONLY handle (repaired; generated in every history)
+	"removeall parent-missing":       false, // memFS fails, os.RemoveAll returns nil (repaired; generated in every history)
+	"rename nonexistent-onto-itself": false, // memFS returns nil for a name that does not exist (repaired; generated in every history)
+	"rename root-onto-itself":        false, // memFS returns nil, Dir refuses (repaired; generated in every history)
+	"write empty-write-past-eof":     false, // memFS extends the file on a zero-length write (repaired; generated in every history)
 }
 
 type c44Handle struct {
